@@ -350,6 +350,8 @@ def run(prop, tier, seed, replay=None):
         'share-memory paths in handshake metadata are either the ones the harness created or do not exist',
         'a descriptor-passing (memfd) handshake is exercised with a real client only (every session pair of the run-phase executor), '
         'not byte by byte',
+        'the receive side is driven read by read by the harness (real onReadReady + real posted lambdas) for the exhaustive part; the '
+        'free-running epoll loop is exercised by the child-process executor on a subset',
     ]
     known = core.known_findings()
     extra = os.environ.get('VERIF_KNOWN_EXTRA')      # testing aid: a second file in the format of known-findings.txt
@@ -486,9 +488,10 @@ def execute(ck, cases, token, rng, tier, listed, only=None):
     ck.add('states', res.distinct)
     ck.add('transitions', len(edges))
     ck.cov['exhaustive'] = True
-    ck.cov['tlc_configs'] = ['EventCodec: %d byte strings (%d bytes) x every cut: %d distinct states, %d transitions, depth %d, %.1fs; '
-                             'invariants TypeOK CutIndependent ErrorMeansClosed NoCompleteEventLeft WindowIsSuffix'
-                             % (len(cases), sum(len(c['bytes']) for c in cases), res.distinct, len(edges), res.depth, res.wall)]
+    ck.cov['tlc_configs'] = ['EventCodec: %d byte strings (%d bytes, longest %d) x every cut: %d distinct states, %d transitions, '
+                             '%d parallel TLC runs, %.1fs; invariants TypeOK CutIndependent ErrorMeansClosed NoCompleteEventLeft WindowIsSuffix'
+                             % (len(cases), sum(len(c['bytes']) for c in cases), max(len(c['bytes']) for c in cases), res.distinct,
+                                len(edges), len(res.cmap), res.wall)]
     jobs, ncov = build_jobs(ck, cases, nodes, edges, inits, rng, tier, res.cmap)
     nbeh = sum(len(j['behaviours']) for j in jobs)
     ck.log('graph: %d states, %d transitions; selected %d behaviours covering %d transitions' % (res.distinct, len(edges), nbeh, ncov))
